@@ -179,6 +179,11 @@ def classify_guard(cond, err_polarity, tree_order, b, prog):
                     and pos[0][1] == "llfree::lower::Lower::frames"
                     and any(a[0] == "pow2" for a in neg) and any(a[0] == "f" and a[1] == ("p", "frame") for a in neg))
         if not shape_ok:
+            # an atom that depends on the order but is not 2^order: the block length is wrong
+            odd = [a for a in atoms if a[0] != "pow2" and any(isinstance(x, tuple) and x and x[0] == "f" and x[-1] == "order"
+                                                              for x in T.walk(("x", a)))]
+            if odd:
+                return ("range", False, "the block length in the range guard is %s, not 2^order" % (odd[:1],))
             return ("range", None, "unrecognised linear shape " + T.show(cond))
         return ("range", const == 0, "accepted iff frame + 2^order <= frames()%s" % (
             "" if const == 0 else " shifted by %d (off by one)" % const))
